@@ -5,10 +5,12 @@ from vlib import gocheck
 def main():
     groups = [dict(pkg='compiler/internal/source', rel='internal/source', harnesses=['HarnessC19Advance']),
               dict(pkg='compiler/internal/frontend/lexer', rel='internal/frontend/lexer', harnesses=['HarnessC19Trivia'], max_paths=100000)]
+    groups += [dict(pkg='compiler/internal/verifrt/fe', rel='internal/verifrt/fe', harnesses=['HarnessC19Gaps%d' % k], max_paths=100000, wall_timeout=3000) for k in range(8)]
     rc = gocheck.run('C19', 'other', groups, gocheck.GOSYM_ASSUME + [
         'ASCII text only; regular expressions of the lexer are matched by a backtracking matcher over regexp/syntax with Go leftmost-first semantics (gosym/interp/regex.go)',
-        'PARTIAL: only position tracking and whitespace trivia between two fixed tokens; comments, the parser doc-comment attachment and acceptance/output of whole reformatted programs are outside this check',
-    ], 'PARTIAL (kernels): (a) Position.Advance on every ASCII string up to L=3 (4 thorough) and every split point: Index counts bytes, Line counts newlines, and the column after Advance(s1+s2) equals the column after Advance(s1);Advance(s2); (b) the real lexer (all its regular expressions, matched symbolically) on tok1 . trivia . tok2 for 6 token pairs and every whitespace trivia of length <= 2 (3 thorough): same token kinds/values as with a single space, second token starts where the trivia ends.')
+ 'front-end harness (HarnessC19Gaps*): the program set is fixed (two small programs quick, plus a broad-syntax one thorough); the inserted trivia is one of: blank, newline, blank-newline-blanks, block comment, line comment, the comment text being ONE symbolic character (6 interesting characters quick, all printable ASCII thorough); tabs are left out of the position obligation (known finding D10)',
+        'NOT decided: what an accepted reformatted program prints (needs code generation), doc-comment / @extern attachment, programs outside the fixed set, multi-character comment bodies',
+    ], 'FRONT END (HarnessC19Gaps0-7): for every gap between two tokens of each program and every trivia kind, the real lexer, parser, collector, resolver and type checker run on the reformatted text inside the symbolic interpreter: acceptance is unchanged, the set of error diagnostics is unchanged, and each diagnostic\'s byte index, line and column move exactly with the inserted text. KERNELS: (a) Position.Advance on every ASCII string up to L=3 (4 thorough) and every split point: Index counts bytes, Line counts newlines, and the column after Advance(s1+s2) equals the column after Advance(s1);Advance(s2); (b) the real lexer (all its regular expressions, matched symbolically) on tok1 . trivia . tok2 for 6 token pairs and every whitespace trivia of length <= 2 (3 thorough): same token kinds/values as with a single space, second token starts where the trivia ends.')
     sys.exit(rc)
 
 if __name__ == '__main__':
